@@ -136,15 +136,27 @@ def action_config_writers(ctx: Ctx):
                 cfg = call.args[2]
             keys = {}
             extra_stores = []
-            if isinstance(cfg, ast.Name):
-                # config = {...}; config[KEY] = value ... ; LocationAction(..., config, ...)
+            hops = 0
+            while isinstance(cfg, ast.Name) and hops < 4:
+                # config = {...}; config[KEY] = value ... ; LocationAction(..., config, ...) - also through a plain alias
+                # (`value = config`) and a copy (`config2 = dict(config)`), whose later stores add to the same keys
+                hops += 1
                 binds = [b for k, b in ctx.types.local_bindings(fi, cfg.id) if k == "assign"]
                 for n in ctx.types.nodes_in(fi, ast.Assign):
                     for tg in n.targets:
                         if isinstance(tg, ast.Subscript) and isinstance(tg.value, ast.Name) and tg.value.id == cfg.id:
                             extra_stores.append((tg.slice, n.value))
-                if len(binds) == 1 and isinstance(binds[0][1], ast.Dict):
-                    cfg = binds[0][1]
+                if len(binds) != 1 or len(ctx.types.local_bindings(fi, cfg.id)) != 1:
+                    break
+                v_ = binds[0][1]
+                if isinstance(v_, ast.Call) and isinstance(v_.func, ast.Name) and v_.func.id == "dict" and len(v_.args) == 1 and not v_.keywords:
+                    v_ = v_.args[0]
+                elif isinstance(v_, ast.Call) and isinstance(v_.func, ast.Attribute) and v_.func.attr == "copy" and not v_.args:
+                    v_ = v_.func.value
+                if isinstance(v_, (ast.Dict, ast.Name)):
+                    cfg = v_
+                else:
+                    break
             if isinstance(cfg, ast.Dict):
                 for k, v in list(zip(cfg.keys, cfg.values)) + extra_stores:
                     if k is None:
@@ -283,6 +295,23 @@ def param_mutations(ctx: Ctx, fi: FuncInfo, pname: str, depth: int = 2, seen=Non
     return out
 
 
+
+
+def is_attach_call(ctx: Ctx, call, fi) -> bool:
+    """`call` hands a result over to the trigger context: `...attach_result(x)`, or a call of a method of the repository
+    that does nothing but forward its argument to it (`def _attach_result(self, r): self.trigger_context.attach_result(r)`)."""
+    if not isinstance(call, ast.Call) or not isinstance(call.func, ast.Attribute):
+        return False
+    if call.func.attr == "attach_result":
+        return True
+    for g in ctx.types.resolve_call(call, fi).repo:
+        body = [st for st in g.node.body if not (isinstance(st, ast.Expr) and isinstance(st.value, ast.Constant))]
+        if len(body) == 1 and isinstance(body[0], (ast.Expr, ast.Return)) and isinstance(body[0].value, ast.Call):
+            inner = body[0].value
+            if isinstance(inner.func, ast.Attribute) and inner.func.attr == "attach_result" and len(inner.args) == 1 and isinstance(inner.args[0], ast.Name) \
+                    and inner.args[0].id in g.params:
+                return True
+    return False
 
 def lost_updates(ctx: Ctx, funcs):
     """[(function, call, property)] in-place changes made to a value that a property just built for the caller (`return
@@ -680,6 +709,60 @@ def stale_memo_fields(ctx: Ctx, cls):
     return out
 
 
+
+def unsound_memos(ctx: Ctx, cls):
+    """[(method, node, what)] answers remembered in `cls` that can outlive what they were worked out from:
+    a method under functools.lru_cache / cache / cached_property that reads an instance field which is given a new value
+    outside the constructor, or a container a getter hands out by reference (nothing ever empties such a cache). A keyed
+    memo in a field is the business of stale_memo_fields (reset where its source is assigned)."""
+    p, t = ctx.prog, ctx.types
+    methods = [m for lst in cls.methods.values() for m in lst]
+
+    def self_field(e):
+        return e.attr if isinstance(e, ast.Attribute) and isinstance(e.value, ast.Name) and e.value.id == "self" else None
+
+    def fields_read(m, depth=0, seen=None):
+        seen = seen if seen is not None else set()
+        if t.fkey(m) in seen or depth > 3:
+            return set()
+        seen.add(t.fkey(m))
+        out = {self_field(a) for a in t.nodes_in(m, ast.Attribute) if self_field(a) and isinstance(a.ctx, ast.Load)}
+        for c in t.calls_in(m):
+            for g in t.resolve_call(c, m).repo:
+                if g.cls is not None and any(k is g.cls for k in cls.mro):
+                    out |= fields_read(g, depth + 1, seen)
+        for a in t.nodes_in(m, ast.Attribute):
+            for g in t.property_targets(a, m):
+                if g.cls is not None and any(k is g.cls for k in cls.mro):
+                    out |= fields_read(g, depth + 1, seen)
+        return out
+
+    live = set()       # fields handed out by reference
+    for m in methods:
+        for r in t.nodes_in(m, ast.Return):
+            f = self_field(r.value) if r.value is not None else None
+            if f:
+                live.add(f)
+    reassigned = set()
+    for m in methods:
+        if m.name == "__init__":
+            continue
+        for a in t.nodes_in(m, ast.Attribute):
+            if self_field(a) and isinstance(a.ctx, ast.Store):
+                reassigned.add(self_field(a))
+    out = []
+    for m in methods:
+        decs = [norm(d.func) if isinstance(d, ast.Call) else norm(d) for d in m.node.decorator_list]
+        cached = [d for d in decs if d.rsplit(".", 1)[-1] in ("lru_cache", "cache", "cached_property")]
+        reads = fields_read(m)
+        if cached:
+            bad = sorted(f for f in reads if f in reassigned or f in live)
+            if bad:
+                out.append((m, m.node.decorator_list[0], "@%s on %s, which reads `self.%s` - %s: the first answer is given for ever" % (
+                    cached[0], m.name, bad[0], "a field that is given a new value later" if bad[0] in reassigned else "a container handed out by reference")))
+            continue
+    return out
+
 def fold_strings(ctx: Ctx, e, fi, depth=0):
     """The set of string constants an expression denotes - literals, tuples / lists / sets / frozensets of them, `+` of
     such, module-level constants (also imported ones) - or None when it is not such a constant collection."""
@@ -712,6 +795,20 @@ def fold_strings(ctx: Ctx, e, fi, depth=0):
             m2 = r[1]
             v = m2.consts.get(r[2])
             return fold_strings(ctx, v, m2, depth + 1) if v is not None else None
+        # a constant kept on a class: `self.X` / `cls.X` / `Cls.X` with X assigned once, in the class body only
+        if isinstance(e, ast.Attribute) and hasattr(fi, "module"):
+            owners = []
+            if isinstance(e.value, ast.Name) and e.value.id in ("self", "cls") and getattr(fi, "cls", None) is not None:
+                owners = list(fi.cls.mro)
+            else:
+                for ty in ctx.types.type_of(e.value, fi):
+                    if ty[0] == "clsobj" and ty[1] in ctx.prog.classes:
+                        owners = list(ctx.prog.classes[ty[1]].mro)
+            for c in owners:
+                if e.attr in c.class_attrs:
+                    if ctx.types.field_stores(c, e.attr):
+                        return None
+                    return fold_strings(ctx, c.class_attrs[e.attr], c.module, depth + 1)
     return None
 
 
